@@ -231,6 +231,7 @@ theorem handleRead_eq {σ} (c : Conn σ) (p : PSt) (e : Ev)
   | cleanup => exact ⟨h, hs, hc⟩
   | appQueue r env => exact ⟨h, hs, hc⟩
   | upgradeDone => exact ⟨h, hs, hc⟩
+  | startFailed => exact ⟨h, hs, hc⟩
 
 theorem handleWrite_eq {σ} (c : Conn σ) (p : PSt) (r : WriteRes)
     (h : Rel c p) (hs : c.started = true) (hc : c.cleaned = false) :
@@ -274,6 +275,12 @@ theorem step_rel {σ} (cfg : Cfg) (app : App σ) (c : Conn σ) (p : PSt) (e : Ev
       · exact h
       · rename_i hns
         cases p <;> simp_all [Rel, Inv, respOrUpg] <;> grind
+    | startFailed =>
+      simp only
+      split
+      · exact h
+      · rename_i hns
+        cases p <;> simp_all [Rel, Inv, respOrUpg]
     | recv toks =>
       simp only
       split
